@@ -1060,7 +1060,14 @@ def rule_updmisc(text):
     table = [
         (r"std\s*::\s*ptr\s*::\s*eq\s*\(\s*(\w+)\s*,\s*(\w+)\s*\.\s*as_ref\s*\(\s*\)\s*\)", r"record_ptr_eq(\1, &\2)", "R-ptreq", "shim: pointer identity (an opaque boolean)"),
         (r"Some\s*\(\s*ref\s+(\w+)\s*\)\s*=\s*([\w.]+)\s*\{", r"Some(\1) = \2.as_ref() {", "R-refpat", "`Some(ref x) = e` binds a reference into e: same as matching e.as_ref()"),
-        (r"\bvalue\s*\.\s*to_vec\s*\(\s*\)", "slice_to_vec_u8(value)", "R-vec", "shim: <[u8]>::to_vec copies the bytes"),
+        (r"\b(value|key)\s*\.\s*to_vec\s*\(\s*\)", r"slice_to_vec_u8(\1)", "R-vec", "shim: <[u8]>::to_vec copies the bytes"),
+        (r"Arc\s*::\s*ptr_eq\s*\(", "arc_ptr_eq(", "R-ptreq", "shim: pointer identity of two Arcs (an opaque relation)"),
+        (r"std\s*::\s*time\s*::\s*Instant\s*::\s*now\s*\(\s*\)", "instant_now()", "R-instant", "shim: reading the monotonic clock for latency statistics"),
+        (r"(\w+)\s*\.\s*elapsed\s*\(\s*\)\s*\.\s*as_nanos\s*\(\s*\)\s*as\s+u64", r"elapsed_nanos(&\1)", "R-instant", "shim: elapsed nanoseconds for latency statistics"),
+        (r"(self\s*\.\s*write_buffer)\s*\.\s*as_ref\s*\(\s*\)\s*\.\s*filter\s*\(\s*\|\s*_\s*\|\s*([^()|]*?)\s*\)\s*\.\s*map\s*\(\s*\|\s*_\s*\|\s*(Arc::clone\(&\w+\))\s*\)",
+         r"(if \1.is_some() && \2 { Some(\3) } else { None })", "R-optgate", "definition of Option::filter + Option::map with closures that ignore their argument"),
+        (r"crate\s*::\s*test_hooks\s*::\s*pause_at\s*\([^()]*\)\s*;", "", "R-hook", "dropped: test-only pause hook"),
+        (r"\.\s*read\s*\(\s*key\s*,\s*\|\s*_\s*,\s*v\s*\|\s*v\s*\.\s*clone\s*\(\s*\)\s*\)", ".read_arc(key)", "R-hread", "shim: the lookup closure only clones the Arc it is handed"),
     ]
     for pat, rep, rname, why in table:
         while True:
@@ -1070,4 +1077,14 @@ def rule_updmisc(text):
             new = mm.expand(rep)
             apps.append(_app(rname, text, mm.start(), mm.end(), new, why))
             text = text[:mm.start()] + new + text[mm.end():]
+    return text, apps
+
+
+def rule_sig_upd(text):
+    """signature rule for the store-ops unit"""
+    apps = []
+    mm = re.search(r"std\s*::\s*time\s*::\s*Instant", text)
+    if mm:
+        apps.append(_app("R-handle", text, mm.start(), mm.end(), "InstantH", "opaque handle for std::time::Instant"))
+        text = text[:mm.start()] + "InstantH" + text[mm.end():]
     return text, apps
